@@ -1,8 +1,11 @@
 package checks
 
 import (
+	"errors"
 	"fmt"
+	"github.com/huderlem/poryscript/parser"
 	"sort"
+	"strings"
 
 	"verif.local/pvmon/internal/h"
 	"verif.local/pvmon/internal/spec"
@@ -160,6 +163,66 @@ func runC11(ctx *h.Ctx) int {
 			return
 		}
 		k.Count("cli_runs_equal", 1)
+	})
+	// the argument at the configured position is an inline text, a moves() list or empty: there is no var to compare.
+	// Either a located error, or - if accepted - the comparison must name what the argument was rendered as
+	ctx.RunCases("position-without-var", ctx.N(300, 6000), func(k *h.Case) {
+		g := spec.NewGen(k.R, spec.Profile{})
+		prog := g.Prog
+		name := g.Name("posav")
+		pos := k.R.IntN(2)
+		prog.AutoVars[name] = spec.AutoVar{ArgPos: pos}
+		var bad *spec.Arg
+		what := ""
+		switch k.R.IntN(3) {
+		case 0:
+			bad, what = &spec.Arg{Text: &spec.TextVal{ID: prog.NewID(), Parts: []string{"not a var"}}}, "inline text"
+		case 1:
+			bad, what = &spec.Arg{Moves: []*spec.ListElem{{ID: prog.NewID(), Name: "walk_up"}}}, "moves()"
+		default:
+			bad, what = &spec.Arg{}, "empty argument"
+		}
+		args := []*spec.Arg{{Toks: []string{"7"}}, {Toks: []string{"8"}}}
+		args[pos] = bad
+		if what == "empty argument" && pos == 1 {
+			args = append(args, &spec.Arg{Toks: []string{"9"}}) // keep the empty argument interior
+		}
+		c := &spec.Cmd{ID: prog.NewID(), Name: name, Args: args}
+		var st spec.Stmt
+		body := &spec.Block{ID: prog.NewID(), Stmts: []spec.Stmt{&spec.CmdStmt{Cmd: g.Cmd()}}}
+		if k.R.IntN(2) == 0 {
+			st = &spec.If{ID: prog.NewID(), Arms: []*spec.Arm{{Cond: &spec.Leaf{ID: prog.NewID(), Kind: spec.LeafAuto, Auto: c, Op: "==", Value: []string{"1"}}, Body: body}}}
+		} else {
+			st = &spec.Switch{ID: prog.NewID(), Auto: c, Cases: []*spec.Case{{ID: prog.NewID(), Value: []string{"1"}, Body: body}}}
+		}
+		prog.Items = append(prog.Items, &spec.Script{ID: prog.NewID(), Name: g.Name("Scr"), Body: &spec.Block{ID: prog.NewID(), Stmts: []spec.Stmt{&spec.CmdStmt{Cmd: g.Cmd()}, st}}})
+		src := spec.Source(prog)
+		k.SetSource(src)
+		res := h.Compile(src, optsOf(prog, k.R.IntN(2) == 0))
+		k.Count("evaluations", 1)
+		if res.Panic != nil {
+			k.Violation("compiler-panic", fmt.Sprintf("panic: %v", res.Panic), nil)
+			return
+		}
+		if res.Err != nil {
+			var pe parser.ParseError
+			if !errors.As(res.Err, &pe) || pe.LineNumberStart < 1 {
+				k.Violation("position-without-var-unlocated", fmt.Sprintf("[%s at position %d] rejected without a source position: %v", what, pos, res.Err), nil)
+				return
+			}
+			k.Count("position_without_var_rejected", 1)
+			k.Nontrivial("posnovar", what, pos, "rejected")
+			return
+		}
+		for _, ln := range strings.Split(res.Out, "\n") {
+			t := strings.TrimSpace(ln)
+			if strings.HasPrefix(t, "compare ,") || t == "switch" || strings.HasPrefix(t, "compare_var_to_value ,") {
+				k.Violation("comparison-with-empty-operand", fmt.Sprintf("[%s at position %d] accepted, and the comparison has no operand: %q", what, pos, t), map[string]interface{}{"output": res.Out})
+				return
+			}
+		}
+		k.Count("position_without_var_accepted_with_operand", 1)
+		k.Nontrivial("posnovar", what, pos, "accepted")
 	})
 	rejectGuard(ctx, 0.05)
 	return ctx.Finish(
